@@ -27,6 +27,8 @@ def owner(what, cfg):
         return "C05"
     if w.startswith(("first error token", "error token", "recovery arguments", "recovery range", "first-ignored", "first-recovered", "error tokens")):
         return "C06"
+    if w.startswith("ignored tokens of the first recovery"):
+        return "C08"
     if w.startswith(("root with recovery on", "tree after recovery")):
         return "C07"
     if w.startswith(("parse rc", "syntax_error calls", "root for")):
@@ -46,7 +48,7 @@ def gid_of(vec):
     return hashlib.sha1(json.dumps(vec["rules"], sort_keys=True).encode()).hexdigest()[:12]
 
 
-def mcgram_cfg(terms, nts, maxrules, maxrhs, maxlen, useerr, variants, trees, invariants=("Emit",)):
+def mcgram_cfg(terms, nts, maxrules, maxrhs, maxlen, useerr, variants, trees, invariants=("Emit",), recov=0):
     return """SPECIFICATION Spec
 CONSTANTS
   Terms = {%s}
@@ -57,10 +59,11 @@ CONSTANTS
   UseErr = %s
   Variants = {%s}
   EmitTrees = %s
+  Recov = %d
 INVARIANTS %s
 CHECK_DEADLOCK FALSE
 """ % (",".join(map(str, terms)), ",".join(map(str, nts)), maxrules, maxrhs, maxlen,
-       "TRUE" if useerr else "FALSE", ",".join(map(str, variants)), "TRUE" if trees else "FALSE", " ".join(invariants))
+       "TRUE" if useerr else "FALSE", ",".join(map(str, variants)), "TRUE" if trees else "FALSE", recov, " ".join(invariants))
 
 
 def blocks_from_vector(vec, configs, codemap="ascii", define_only=False, mems=(0,), max_cases=None, with_fo=True,
@@ -102,6 +105,8 @@ def blocks_from_vector(vec, configs, codemap="ascii", define_only=False, mems=(0
             x += " fo=%d" % c["fo"]
         if have:
             x += " nt=%d trees=1" % min(2, len(trees))
+        if c.get("rv"):
+            x += "".join(" rc%d_%d=%d" % (k, i + 1, v) for k, row in enumerate(c["rv"][0]["rcs"]) for i, v in enumerate(row) if v >= 0)
         lines.append(x + extra_x)
         if have:
             mins = {json.dumps(t) for t in c.get("mins", [])}
